@@ -74,7 +74,7 @@ def run_check(prop, tier, seed):
                                      per=t.get('per', drv.get('per', 60000)), env=denv)
             for s in sums:
                 if s.get('crash'):
-                    crashes.append(('C18.crash', [s['req']], 'driver %s shard %d: the process died inside the call (%s)' % (s['driver'], s['shard'], s['how'])))
+                    crashes.append((prop + '.crash', s['req'], 'driver %s shard %d: the process died inside the call (%s)' % (s['driver'], s['shard'], s['how'])))
                 for op, n in s['ops'].items():
                     cov['driver_ops'][op] = cov['driver_ops'].get(op, 0) + n
         files = sorted(glob.glob(os.path.join(tdir, '*.ndjson')))
@@ -144,7 +144,7 @@ def run_check(prop, tier, seed):
                     continue
                 for c in codes:
                     pending.append((c, evs, new[-1], note, None))
-            elif code == 'C18.crash':
+            elif code.endswith('.crash'):
                 # "returns normally" failed in the strongest way: confirmed by re-executing the request alone
                 again, how = vf.replay_crash(harness, evs, scratch)
                 if not again:
